@@ -71,8 +71,22 @@ def parseMsg (j : Json) : Msg String String :=
   { issuer := (str? j "issuer").map (fun (s : String) => s.trimAscii.toString), signer := str? j "signer",
     keyInfo := { certs := strList kij "certs", rsa := str? kij "rsa" } }
 
-def envPath (kindOf : String → CertKind) (onlyMd : Bool) (md : Metadata String String) (m : Msg String String) : String :=
-  let r := checkSignature true kindOf Gen.KeysDefaults.roleOrder onlyMd md m
+/-- a configuration value as the case writes it -/
+def parseForm (c : Json) (k : String) (dflt : CfgForm) : CfgForm :=
+  match c.getObjVal? k with
+  | .ok (.bool b) => .bool b
+  | .ok (.num n) => match (fromJson? (.num n) : Except String Nat) with | .ok v => .int v | .error _ => .textOther
+  | .ok (.str "true") => .textTrue
+  | .ok (.str "false") => .textFalse
+  | .ok (.str "") => .textEmpty
+  | .ok (.str _) => .textOther
+  | .ok .null => .absent
+  | _ => dflt
+
+def envPath (kindOf : String → CertKind) (onlyMd : Bool) (md : Metadata String String) (m : Msg String String)
+    (ovc : Bool := false) : String :=
+  let r := checkSignatureOvc true kindOf Gen.KeysDefaults.roleOrder onlyMd ovc md m
+  let verified := (tryCerts true kindOf m (selectCerts Gen.KeysDefaults.roleOrder onlyMd md m)).1
   let fromMd := (mdCerts Gen.KeysDefaults.roleOrder md m.issuer .signing).getD []
   let nonRsa := if r.handed.any (fun c => kindOf c != .rsa) then "+non-rsa-cert-tried" else ""
   let out :=
@@ -83,8 +97,10 @@ def envPath (kindOf : String → CertKind) (onlyMd : Bool) (md : Metadata String
         | .accepted => if r.handed.length ≤ 1 then "fallback/accepted-first" else "fallback/accepted-later"
         | _ => "fallback/rejected"
     else match r.verdict with
-      | .accepted => if r.handed.length ≤ 1 then "accepted-first-cert" else "accepted-later-cert"
+      | .accepted => if !verified then "only-valid-cert-lets-through" else
+          if r.handed.length ≤ 1 then "accepted-first-cert" else "accepted-later-cert"
       | _ => "none-verifies"
+  let out := if fromMd.isEmpty && ovc && r.verdict == .accepted && !verified then "fallback/only-valid-cert-lets-through" else out
   lookupTag md m.issuer ++ "/" ++ out ++ nonRsa
 
 def detPath (kindOf : String → CertKind) (own : String) (md : Metadata String String) (m : Msg String String) : String :=
@@ -96,14 +112,14 @@ def detPath (kindOf : String → CertKind) (own : String) (md : Metadata String 
   | .accepted => if r.handed.length ≤ 1 then "accepted-first-cert" else "accepted-later-cert"
   | _ => if r.handed.isEmpty then "no-signing-cert" else "none-verifies") ++ nonRsa
 
-def whyNot (cfg : Option Bool) (md : Metadata String String) (m : Msg String String) (restrictedImpl : Bool) : String :=
+def whyNot (pol : Option Bool) (md : Metadata String String) (m : Msg String String) (restrictedImpl : Bool) : String :=
   let bound := boundKeys md m.issuer
   match m.signer with
   | none => "accepted-although-no-key-verifies"
   | some k =>
     if m.keyInfo.certs.contains k || m.keyInfo.rsa == some k then
       if !restrictedImpl then "embedded-key-used-by-unrestricted-xmlsec"
-      else if policy cfg then "embedded-key-accepted-under-metadata-only-policy"
+      else if pol.getD true then "embedded-key-accepted-under-metadata-only-policy"
       else if !bound.isEmpty then "fallback-although-metadata-has-keys"
       else "embedded-non-certificate-key-accepted"
     else "unbound-key-accepted"
@@ -113,8 +129,13 @@ def handle (line : Json) : Json :=
   let impl := (obj? line "impl").getD Json.null
   let mdj := (obj? c "md").getD Json.null
   let md := mkMd (parseEntities mdj)
-  let cfg := bool? c "only_md"
-  let onlyMd := cfg.getD Gen.KeysDefaults.onlyMdDefault
+  -- the three options as written; the model takes what the code makes of them
+  let cfg := parseForm c "only_md" .absent
+  let ovcF := parseForm c "ovc_form" .absent
+  let mustF := parseForm c "must_form" (.bool true)
+  let onlyMd := normCommon Gen.KeysDefaults.onlyMdDefault cfg
+  let ovc := normService ovcF
+  let must := normService mustF
   let kindOf := kindOfCase c
   let own := strD c "own" "sp"          -- the receiver's own key in every harness configuration
   let ord := Gen.KeysDefaults.roleOrder
@@ -126,22 +147,23 @@ def handle (line : Json) : Json :=
   let (kind, item) : Kind String String × Msg String String :=
     if kindS == "redirect" || kindS == "logout_redirect" then (.detached hasKi, m)
     else if kindS == "advice_enc" then (.after first true, m)
-    else if kindS == "plain_plus_enc" then (.after first false, m)
+    else if kindS == "plain_plus_enc" || kindS == "resp_assertion" || kindS == "resp_enc_assertion" then (.after first false, m)
     else if kindS == "advice_plain" then (.enveloped, first)
     else (.enveloped, m)
-  let o := accept true kindOf own ord onlyMd md kind item
+  let o := accept true kindOf own ord onlyMd ovc must md kind item
   let handed := (tag "x:" o.handedX).eraseDups ++ (tag "r:" o.handedR).eraseDups
   let path :=
     match kind with
-    | .enveloped => (if kindS == "advice_plain" then "outer-only/" else "env/") ++ envPath kindOf onlyMd md item
+    | .enveloped => (if kindS == "advice_plain" then "outer-only/" else "env/") ++ envPath kindOf onlyMd md item ovc
     | .detached env =>
+      let det := if must || ovc then detPath kindOf own md item else "not-required-not-checked"
       if env then
-        if (checkSignature true kindOf ord onlyMd md item).verdict = .accepted then
-          "det+env/" ++ envPath kindOf onlyMd md item ++ "|" ++ detPath kindOf own md item
-        else "det+env/" ++ envPath kindOf onlyMd md item
-      else "det/" ++ detPath kindOf own md item
+        if (checkSignatureOvc true kindOf ord onlyMd ovc md item).verdict = .accepted then
+          "det+env/" ++ envPath kindOf onlyMd md item ovc ++ "|" ++ det
+        else "det+env/" ++ envPath kindOf onlyMd md item ovc
+      else "det/" ++ det
     | .after f withArg =>
-      let pre := if withArg then "advice/" else "second/"
+      let pre := if withArg then "advice/" else if kindS == "plain_plus_enc" then "second/" else "in-response/"
       if (checkSignature true kindOf ord onlyMd md f).verdict = .accepted then
         let rel := if item.issuer == f.issuer then "same-issuer" else "other-issuer"
         pre ++ rel ++ "/" ++ envPath kindOf onlyMd md (attributed (if withArg then f.issuer else none) item)
@@ -149,19 +171,21 @@ def handle (line : Json) : Json :=
   -- a metadata source that was loaded first and dropped by a reload is no input of the model
   let path := if (obj? c "stale").isSome then "after-reload/" ++ path else path
   let implAcc := boolD impl "accepted"
-  let specImpl := specKind cfg md kind item implAcc
+  let specImpl := specKind cfg ovcF mustF md kind item implAcc
   let restrictedImpl := boolD impl "restricted" true
+  -- the reasons are judged under the policy the property reads from the written value
+  let pcfg : Option Bool := some (policy cfg)
   let why : String :=
     if specImpl then "" else
     match kind with
     | .after f withArg =>
-      if !keyOriginB (policy cfg) md f then "first-item:" ++ whyNot cfg md f restrictedImpl
-      else "nested-item:" ++ whyNot cfg md (attributed (if withArg then f.issuer else none) item) restrictedImpl
-    | _ => whyNot cfg md item restrictedImpl
+      if !keyOriginB (policy cfg) md f then "first-item:" ++ whyNot pcfg md f restrictedImpl
+      else "nested-item:" ++ whyNot pcfg md (attributed (if withArg then f.issuer else none) item) restrictedImpl
+    | _ => whyNot pcfg md item restrictedImpl
   Json.mkObj [
     ("model", Json.mkObj [("accepted", o.accepted), ("handed", jstrs handed), ("restricted", true)]),
     ("path", path),
-    ("spec_model", specKind cfg md kind item o.accepted),
+    ("spec_model", specKind cfg ovcF mustF md kind item o.accepted),
     ("spec_impl", specImpl),
     ("why", why),
     ("keyless", keyless md item.issuer),
